@@ -435,6 +435,9 @@ func ParseFile(path string, pkgPath string) (*File, error) {
 				return nil, fail(err)
 			}
 			f.Imports[parts[0]] = pth
+		case "stablegetters":
+			f.Stable = append(f.Stable, rest)
+			cur, curCS = nil, nil
 		case "package":
 			if !isGo {
 				f.Pkg = strings.Trim(rest, "\"")
@@ -579,6 +582,15 @@ func ParseFile(path string, pkgPath string) (*File, error) {
 				} else {
 					cur.Opts[strings.TrimSpace(rest)] = "true"
 				}
+			case "dyncall":
+				parts := strings.Fields(rest)
+				if len(parts) != 2 || parts[1] != "pure" && parts[1] != "noeffect" {
+					return nil, fail(fmt.Errorf("dyncall <variable> pure|noeffect"))
+				}
+				if cur.DynCalls == nil {
+					cur.DynCalls = map[string]string{}
+				}
+				cur.DynCalls[parts[0]] = parts[1]
 			case "let":
 				idx := strings.Index(rest, "=")
 				if idx < 0 {
@@ -669,7 +681,7 @@ var keywords = map[string]bool{
 	"spec": true, "ghost": true, "axiom": true, "lemma": true, "event": true, "func": true,
 	"requires": true, "ensures": true, "modifies": true, "pure": true, "noeffect": true, "trusted": true,
 	"let": true, "loop": true, "callsite": true, "assert": true, "import": true, "package": true,
-	"noinline": true, "inline": true, "props": true, "fresh": true, "opt": true,
+	"noinline": true, "inline": true, "props": true, "fresh": true, "opt": true, "stablegetters": true, "dyncall": true,
 }
 
 func firstWord(s string) string {
